@@ -26,7 +26,7 @@ fn run(ctx: &mut Ctx, _extra: &mut BTreeMap<String, String>) {
       for kk in 1..=kmax { if kk as usize % 16 != k { continue; } for &dl in [-2i64, -1, 0, 1].iter() {
         let depth = (kk as u8).max(if rng.coin() { 29 } else { kk as u8 + rng.below(3) as u8 }).min(29);
         let nalign = (12u64 << (2 * depth)) >> (2 * kk); let start = rng.below(nalign) << (2 * kk);
-        let len = ((1i64 << (2 * kk)) + dl) as u64;
+        let len = (((1i64 << (2 * kk)) + dl) as u64).min((12u64 << (2 * depth)) - start); // (the run must stay below 12.4^depth)
         let cap = if kk >= 12 { 20_000_000 } else if rng.coin() { 0 } else { (len as usize + 10).max(16) };
         judge_run(c, depth, rng.coin(), cap, start, len);
       } } }
